@@ -2,6 +2,9 @@ package main
 
 import (
 	"fmt"
+	"go/ast"
+	"go/parser"
+	"go/token"
 	"sort"
 	"strings"
 
@@ -48,7 +51,37 @@ func buildTagSweep(prog *load.Program, run *report.Run) {
 			ref = sig
 		}
 		run.Check("R-SWEEP", key+" equals the analysed set", "", sig == ref, "a platform-specific source file exists that the analysis (run for the host platform) does not see")
-		run.Check("R-SWEEP", fmt.Sprintf("no file excluded by build constraints on %s/%s", pl.goos, pl.goarch), "", len(ignored) == 0, fmt.Sprintf("ignored: %v", ignored))
+		// an excluded file is harmless when nothing in it can run: every function in it has an
+		// empty body (the stub that stands in for a file behind a newer-Go build tag) and it
+		// declares nothing else but imports
+		var live []string
+		for _, name := range ignored {
+			if !inertFile(name) {
+				live = append(live, name)
+			}
+		}
+		run.Check("R-SWEEP", fmt.Sprintf("no file with code excluded by build constraints on %s/%s", pl.goos, pl.goarch), "", len(live) == 0, fmt.Sprintf("ignored files that declare more than empty stubs: %v", live))
 	}
 	run.Analysed("platforms swept", len(plats))
+}
+
+// inertFile: the file parses, and its declarations are imports and functions with empty bodies.
+func inertFile(name string) bool {
+	f, err := parser.ParseFile(token.NewFileSet(), name, nil, parser.SkipObjectResolution)
+	if err != nil {
+		return false
+	}
+	for _, d := range f.Decls {
+		switch v := d.(type) {
+		case *ast.GenDecl:
+			if v.Tok != token.IMPORT {
+				return false
+			}
+		case *ast.FuncDecl:
+			if v.Body == nil || len(v.Body.List) != 0 {
+				return false
+			}
+		}
+	}
+	return true
 }
